@@ -9,8 +9,14 @@ from . import known
 from .acc import jsonable
 
 ROOT = os.path.dirname(os.path.dirname(os.path.abspath(__file__)))
-EVID = os.path.join(ROOT, "evidence")
-REPLAYS = os.path.join(ROOT, "replays")
+if os.environ.get("VERIF_REPO", "/repo").rstrip("/") != "/repo":
+    # runs against a mutated scratch copy never touch the evidence of the real tree
+    ALT = os.path.join(os.environ.get("VERIF_SCRATCH", "/var/tmp"), "yarl-verif-alt")
+    EVID = os.path.join(ALT, "evidence")
+    REPLAYS = os.path.join(ALT, "replays")
+else:
+    EVID = os.path.join(ROOT, "evidence")
+    REPLAYS = os.path.join(ROOT, "replays")
 MAX_REPLAYS = 5
 
 
